@@ -88,12 +88,20 @@ func (g *Global) String() string {
 
 // Type returns the type of the global variable.
 func (g *Global) Type() types.Type {
-	// Cache type if not present. The address space can only be set through the
-	// AddrSpace field, after the constructor has cached the type; a cached type
-	// of another address space is replaced (not edited: it may be shared).
-	if g.Typ == nil || g.Typ.AddrSpace != g.AddrSpace {
+	// Cache type if not present.
+	if g.Typ == nil {
 		g.Typ = types.NewPointer(g.ContentType)
 		g.Typ.AddrSpace = g.AddrSpace
+	}
+	// The address space can only be set through the AddrSpace field, after the
+	// constructor has cached the type. A cached type of another address space
+	// is neither edited (it may be shared) nor replaced (the type is queried
+	// while printing, possibly from several goroutines at once): the type is
+	// computed anew.
+	if g.Typ.AddrSpace != g.AddrSpace {
+		typ := types.NewPointer(g.ContentType)
+		typ.AddrSpace = g.AddrSpace
+		return typ
 	}
 	return g.Typ
 }
